@@ -328,6 +328,11 @@ func (cmd *mainCmd) Run(args []string) error {
 				continue
 			}
 
+		} else if _, err := parser.ParseFile(token.NewFileSet(), filename, bs, parser.AllErrors); err != nil {
+			// imports.Process would have rejected output that is not
+			// valid Go; do not emit it when that step is skipped either.
+			errors = append(errors, fmt.Errorf("reformat %q: %w", filename, err))
+			continue
 		}
 
 		switch {
